@@ -18,13 +18,13 @@ theorem reloadStep_fresh_lock (now : Int) (r : JRec) (hl : r.isLock = true)
     reloadStep now [] r =
       ([applyFrame ⟨r.db, r.key, [⟨r.id, 1, r.count, r.rcount, r.eflag,
           engineDeadline r.eflag (loadRemaining r.eflag r.stored r.ct now) now,
-          placeLong r.eflag now (engineDeadline r.eflag (loadRemaining r.eflag r.stored r.ct now) now)⟩], none, false, false⟩ r.data],
+          placeLong r.eflag now (engineDeadline r.eflag (loadRemaining r.eflag r.stored r.ct now) now), r.tflag⟩], none, false, false⟩ r.data],
        Treat.newHold) := by
   unfold reloadStep
   have hk : RState.getKey [] r.db r.key = ⟨r.db, r.key, [], none, false, false⟩ := rfl
   have hlk : (⟨r.db, r.key, [], none, false, false⟩ : RKey).locked = 0 := rfl
   simp only [hs, Bool.false_eq_true, if_false, hl, if_true, hk, hlk, Nat.lt_irrefl, List.head?_nil, Option.map_none, Option.getD_none]
-  have hd : Slock.Gen.K.doLock 0 0 r.count 0 0 = true := by unfold Slock.Gen.K.doLock; simp
+  have hd : Slock.Gen.K.doLock 0 0 r.count r.tflag 0 = true := by unfold Slock.Gen.K.doLock; simp
   simp only [hd, if_true, he, List.nil_append]
   cases hdata : r.data with
   | none => simp [applyFrame, RState.setKey]
@@ -50,7 +50,7 @@ theorem reload_single_agrees (now : Int) (r : JRec) (hl : r.isLock = true)
     | none => exact ⟨rfl, rfl, rfl⟩
     | some f => simp only [applyFrame]; split <;> (try split) <;> (try split) <;> exact ⟨rfl, rfl, rfl⟩
   let d := engineDeadline r.eflag (loadRemaining r.eflag r.stored r.ct now) now
-  let h0 : RHold := ⟨r.id, 1, r.count, r.rcount, r.eflag, d, placeLong r.eflag now d⟩
+  let h0 : RHold := ⟨r.id, 1, r.count, r.rcount, r.eflag, d, placeLong r.eflag now d, r.tflag⟩
   let k0 : RKey := ⟨r.db, r.key, [h0], none, false, false⟩
   refine ⟨applyFrame k0 r.data, h0, r.terms 1, ?_, (hkey k0 _).1, (hkey k0 _).2.1, (hkey k0 _).2.2, hrec, rfl, rfl, rfl, rfl, rfl, rfl⟩
   unfold reload
@@ -61,7 +61,7 @@ theorem reload_single_agrees (now : Int) (r : JRec) (hl : r.isLock = true)
 def freshEntry (now : Int) (r : JRec) : RKey :=
   applyFrame ⟨r.db, r.key, [⟨r.id, 1, r.count, r.rcount, r.eflag,
       engineDeadline r.eflag (loadRemaining r.eflag r.stored r.ct now) now,
-      placeLong r.eflag now (engineDeadline r.eflag (loadRemaining r.eflag r.stored r.ct now) now)⟩], none, false, false⟩ r.data
+      placeLong r.eflag now (engineDeadline r.eflag (loadRemaining r.eflag r.stored r.ct now) now), r.tflag⟩], none, false, false⟩ r.data
 
 theorem applyFrame_key (k : RKey) (d : Option Bytes) : (applyFrame k d).db = k.db ∧ (applyFrame k d).key = k.key := by
   cases d with
@@ -84,14 +84,14 @@ theorem reloadStep_new_key (now : Int) (st : RState) (r : JRec) (hr : LiveLock n
   have hk : st.getKey r.db r.key = ⟨r.db, r.key, [], none, false, false⟩ := by
     unfold RState.getKey; rw [hfind]; rfl
   have hlk : (⟨r.db, r.key, [], none, false, false⟩ : RKey).locked = 0 := rfl
-  have hd : Slock.Gen.K.doLock 0 0 r.count 0 0 = true := by unfold Slock.Gen.K.doLock; simp
+  have hd : Slock.Gen.K.doLock 0 0 r.count r.tflag 0 = true := by unfold Slock.Gen.K.doLock; simp
   unfold reloadStep
   simp only [hs, Bool.false_eq_true, if_false, hl, if_true, hk, hlk, Nat.lt_irrefl, List.head?_nil, Option.map_none,
     Option.getD_none, hd, he, List.nil_append]
   unfold RState.setKey
   have hkk := applyFrame_key ⟨r.db, r.key, [⟨r.id, 1, r.count, r.rcount, r.eflag,
       engineDeadline r.eflag (loadRemaining r.eflag r.stored r.ct now) now,
-      placeLong r.eflag now (engineDeadline r.eflag (loadRemaining r.eflag r.stored r.ct now) now)⟩], none, false, false⟩ r.data
+      placeLong r.eflag now (engineDeadline r.eflag (loadRemaining r.eflag r.stored r.ct now) now), r.tflag⟩], none, false, false⟩ r.data
   simp only [hkk.1, hkk.2, hany, Bool.false_eq_true, if_false]
   rfl
 
@@ -116,7 +116,7 @@ theorem reload_one_record_per_key (now : Int) : ∀ (rs : List JRec) (st : RStat
         subst h
         have := applyFrame_key ⟨r.db, r.key, [⟨r.id, 1, r.count, r.rcount, r.eflag,
           engineDeadline r.eflag (loadRemaining r.eflag r.stored r.ct now) now,
-          placeLong r.eflag now (engineDeadline r.eflag (loadRemaining r.eflag r.stored r.ct now) now)⟩], none, false, false⟩ r.data
+          placeLong r.eflag now (engineDeadline r.eflag (loadRemaining r.eflag r.stored r.ct now) now), r.tflag⟩], none, false, false⟩ r.data
         show ¬ ((freshEntry now r).db = x.db ∧ (freshEntry now r).key = x.key)
         unfold freshEntry
         rw [this.1, this.2]
